@@ -231,6 +231,7 @@ func genOpScenario(r *rand.Rand, op string, small bool) *Scenario {
 			sc.LocalVal = randVal(r)
 		}
 		sc.Quorum = []int{-1, 0, 1, 2, 3}[r.Intn(5)]
+		sc.SlowCons = op == "searchvalue" && sc.Quorum <= 0 && r.Intn(2) == 0
 	case "getpubkey":
 		for i := range sc.Scripts {
 			sc.Scripts[i].Val = pick(r, "", "", "pk:right", "pk:other", "pk:other", "pk:garbage")
@@ -248,6 +249,7 @@ func genOpScenario(r *rand.Rand, op string, small bool) *Scenario {
 			sc.LocalPrv = subset(r, sc.N, 0.2)
 		}
 		sc.Count = []int{0, 1, 2, sc.K, 20}[r.Intn(5)]
+		sc.SlowCons = r.Intn(2) == 0
 	case "putvalue":
 		sc.PutVal = fmt.Sprintf("V%d:%d", r.Intn(4), r.Intn(2))
 		if r.Intn(8) == 0 {
